@@ -44,3 +44,11 @@ Theorem C17_schema : forall o idc uri data es i e,
   enum_source o idc uri data = Some (es, i) -> In e es -> s_envelope (j_envelope e) = true.
 Proof. exact stream_envelopes_ok. Qed.
 Print Assumptions C17_schema.
+
+(* each source's envelopes depend only on that source and the running id counter -- and on the counter only as an
+   offset: they are the envelopes of the source run alone with a fresh generator, every id (AST, pickle, reference)
+   raised by the counter's value; parse errors are the same *)
+Require Import IdShift CompileShift StreamShift.
+Theorem C17_counter_offset : forall o i uri data, enum_source o i uri data = esh i (enum_source o 0 uri data).
+Proof. exact enum_source_fresh. Qed.
+Print Assumptions C17_counter_offset.
